@@ -2,7 +2,7 @@
     Only statements, each closed by [exact <lemma>] (or a short wrapper), with [Print Assumptions]. *)
 From Coq Require Import List ZArith NArith Bool Lia.
 From DH Require Import Lib.CheckLib Model.Store Model.Refs Model.Query Model.GraphSpec
-     Proofs.StoreProofs Proofs.RefsProofs Proofs.QueryProofs Proofs.RefsInv Proofs.C03Paging Proofs.C03Proofs
+     Proofs.StoreProofs Proofs.RefsProofs Proofs.QueryProofs Proofs.RefsInv Proofs.C03Paging Proofs.C03Proofs Proofs.C03Many
      Check.C03Check Proofs.C03CheckProofs.
 Import ListNotations.
 Open Scope Z_scope.
@@ -81,6 +81,22 @@ Theorem C03_paging_inverse : forall fl dm ops rs q fr L fuel,
 Proof. exact incoming_paging. Qed.
 Print Assumptions C03_paging_inverse.
 
+(** Paging over SEVERAL start points (GetManyRelatedEntitiesAtTime: limit accounting across the start points,
+    continuation list with the unfinished and the untouched start points), any list of page limits (>= 0;
+    0 = no limit, the last one repeated): the pages concatenate to the per-start unlimited results, in the
+    order of the start points; a page never exceeds its (positive) limit.  Every per-start result is
+    duplicate-free and equals the graph by C03_outgoing / C03_inverse, so nothing is missing, nothing comes twice. *)
+Theorem C03_paging_many : forall fl dm ops rs q limits froms fuel,
+  reachable fl dm ops rs -> q_noadd q = false -> q_inv1 q = false ->
+  Forall (fun l => 0 <= l) limits -> Forall (fun fr => f_key fr = None) froms ->
+  (length (flat_map (fun fr => fst (related q (rs_keys rs) fr 0)) froms) < fuel)%nat ->
+  concat (follow q (rs_keys rs) froms limits 0 fuel) = flat_map (fun fr => fst (related q (rs_keys rs) fr 0)) froms
+  /\ pages_within limits 0 (follow q (rs_keys rs) froms limits 0 fuel).
+Proof.
+  intros fl dm ops rs q limits froms fuel Hr. apply paging_many. exact (proj1 (reachable_inv _ _ _ _ Hr)).
+Qed.
+Print Assumptions C03_paging_many.
+
 (** the list-level core of paging, for any scan whose continuation is "the last returned key" *)
 Theorem C03_paging_partition : forall L E, 0 < L -> NoDup E ->
   forall fuel start, (start = None \/ exists s, start = Some s /\ In s E) ->
@@ -158,8 +174,8 @@ Theorem C03_paging_refuted_two_datasets :
 Proof. vm_compute. split; reflexivity. Qed.
 Print Assumptions C03_paging_refuted_two_datasets.
 
-(** tie to the correspondence check: on well-formed cases (queries with one start point and one page limit,
-    results within the follow fuel) agreement of the implementation's observations with the repaired model
+(** tie to the correspondence check: on well-formed cases (queries over any list of distinct start points with
+    any list of page limits >= 0, results within the follow fuel) agreement of the implementation's observations with the repaired model
     implies the executable spec on those observations - every returned triple is an edge of the graph of the
     latest versions, every edge is returned, nothing is returned twice *)
 Theorem C03_agree_implies_spec : forall c, wf_case c -> agree v_fixed c = true -> spec_ok c = true.
@@ -172,12 +188,14 @@ Example C03_link_nonvacuous :
                          QWrite (WBatch 3 [e1 (cref false [(6, [8])] 53)]);
                          QRelated [5] 0 false [] now [1] (Some [[(5, 6, 8)]; [(5, 7, 8)]; [(5, 6, 9)]]);
                          QRelated [8] 6 true [3; 99] now [0] (Some [[(8, 6, 5)]]);
-                         QRelated [5] 0 false [99] now [2] (Some [[]])] |} in
+                         QRelated [5] 0 false [99] now [2] (Some [[]]);
+                         QRelated [8; 5; 9] 0 false [] now [1; 2] (Some [[(5, 6, 8)]; [(5, 7, 8); (5, 6, 9)]; []]);
+                         QRelated [9; 8] 6 true [2; 3] now [1] (Some [[(9, 6, 5)]; [(8, 6, 5)]])] |} in
   wf_case c /\ agree v_fixed c = true /\ spec_ok c = true.
 Proof.
   cbv zeta. split; [|vm_compute; split; reflexivity].
   split.
-  - repeat (constructor; [cbn; try exact I; try (split; [eexists; reflexivity | split; [eexists; split; [reflexivity | lia] | lia]])|]). constructor.
+  - repeat (constructor; [cbn; try exact I; try (split; [repeat constructor; cbn; intuition discriminate | split; [repeat constructor; lia | lia]])|]). constructor.
   - cbn. unfold fuel0. repeat split; cbn; lia.
 Qed.
 
